@@ -59,11 +59,18 @@ def handle : List Sexp → Option String
       | .error e => some s!"err {errStr e}"
   | _ => none
 
+/-- every model module contributes a handler; the first one that recognises the request answers -/
+def handlers : List (List Sexp → Option String) :=
+  [handle]
+
+def dispatch (sx : List Sexp) : Option String :=
+  handlers.findSome? (fun h => h sx)
+
 partial def loop (h : IO.FS.Stream) (out : IO.FS.Stream) : IO Unit := do
   let line ← h.getLine
   if line.isEmpty then return ()
   let ans := match parseLine (tokenize line) with
-    | some sx => (handle sx).getD "bad-op"
+    | some sx => (dispatch sx).getD "bad-op"
     | none => "bad-syntax"
   out.putStrLn ans
   out.flush
